@@ -41,7 +41,7 @@ var kindNames = []string{"Open", "Add", "AddMulti", "Abandon", "CompactAll", "Ex
 
 type POp struct {
 	Kind int           `json:"k"`
-	A    int           `json:"a,omitempty"`   // KCompactRange: first = A mod n
+	A    int           `json:"a,omitempty"`   // KCompactRange: first = A mod n (negative: n+A, i.e. from the top)
 	B    int           `json:"b,omitempty"`   // KCompactRange: last = B mod n
 	Bad  int           `json:"bad,omitempty"` // KAdd only: 1 = also writes an invalid ref name, 2 = limits start at 1 (too low)
 	Txs  []HTx         `json:"txs,omitempty"`
@@ -755,6 +755,16 @@ func (e *engine) runOp(p int, stp **reftable.Stack, prog Prog, rec *opRecord) {
 			return
 		}
 		first, last := rec.op.A%n, rec.op.B%n
+		if rec.op.A < 0 || rec.op.B < 0 {
+			// negative: counted from the top of the stack (-1 = newest table)
+			first, last = n+rec.op.A, n+rec.op.B
+			if first < 0 {
+				first = 0
+			}
+			if last < 0 {
+				last = 0
+			}
+		}
 		if first > last {
 			first, last = last, first
 		}
